@@ -23,10 +23,11 @@
    draining the map) influences only the order of transactions in the block. *)
 From Saito Require Import Base.
 
-Inductive ttype := TNormal | TFee | TGoldenTicket | TBlockStake | TSPV | TOther.
+Inductive ttype := TNormal | TFee | TGoldenTicket | TBlockStake | TSPV | TATR | TOther.
 
 Definition ttype_code (t : ttype) : N :=
-  match t with TNormal => 0 | TFee => 1 | TGoldenTicket => 2 | TBlockStake => 3 | TSPV => 4 | TOther => 5 end.
+  match t with TNormal => 0 | TFee => 1 | TGoldenTicket => 2 | TBlockStake => 3 | TSPV => 4
+             | TATR => 5 | TOther => 6 end.
 
 Record tx := mkTx {
   t_id : N;                   (* interned signature *)
@@ -107,8 +108,13 @@ Definition add_transaction (p : pool) (t : tx) : res pool :=
                       (gts p))
        end.
 
+(* fee, rebroadcast and SPV transactions are never accepted from outside (fix 222ce93) *)
+Definition producer_only (t : tx) : bool :=
+  match t_type t with TFee | TATR | TSPV => true | _ => false end.
+
 Definition add_transaction_if_validates (ledger : list N) (p : pool) (t : tx) : res pool :=
-  if tx_validate ledger t then add_transaction p t else Ok p.
+  if producer_only t then Ok p
+  else if tx_validate ledger t then add_transaction p t else Ok p.
 
 (* ---- Mempool::add_golden_ticket (solution not checked; keyed by target) ---- *)
 Definition add_golden_ticket (p : pool) (target id : N) : pool :=
@@ -244,20 +250,23 @@ Fixpoint run (s : state) (ops : list op) : res state :=
 Definition in_block (t : tx) (btxs : list tx) : bool :=
   existsb (fun u => match t_type u with TGoldenTicket => false | _ => t_id u =? t_id t end) btxs.
 
-(* a block addition after which a pooled transaction no longer validates: the retain of
-   remove_block_transactions drops it, its reservations stay *)
+(* a block addition that invalidates a pooled transaction which is not in the block (the
+   block spends one of its inputs): the retain of remove_block_transactions drops it,
+   the reservations of all its inputs stay *)
 Definition ev_invalidated (s : state) (o : op) : bool :=
   match o with
-  | OBlockAdded l _ => existsb (fun t => negb (valid_against l t)) (txs (pl s))
+  | OBlockAdded l b =>
+      existsb (fun t => negb (valid_against l t) && negb (in_block t b)) (txs (pl s))
   | _ => false
   end.
 
-(* a block that contains a pooled transaction with inputs: delete_transactions removes it,
-   its reservations stay *)
+(* a block that contains a pooled transaction with inputs: the transaction leaves the pool
+   (by the retain when the block is on the longest chain, by delete_transactions when it is
+   not), its reservations stay *)
 Definition ev_confirmed (s : state) (o : op) : bool :=
   match o with
   | OBlockAdded l b =>
-      existsb (fun t => valid_against l t && in_block t b && negb (is_nil (t_inputs t))) (txs (pl s))
+      existsb (fun t => in_block t b && negb (is_nil (t_inputs t))) (txs (pl s))
   | _ => false
   end.
 
